@@ -1399,6 +1399,19 @@ fn parse_scale(spec: &str, case: &Case) -> Option<(f64, bool)> {
     }
 }
 
+/// `4 n max|c|^2` is not finite: the sums of squares of the centred coordinates (bounding-box
+/// inertia) can overflow although every coordinate is finite.
+fn coords_squares_may_overflow(case: &Case) -> bool {
+    match case {
+        Case::Bisect { dim, pts, .. } | Case::Hilbert { dim, pts, .. } | Case::ZCurve { dim, pts, .. } | Case::Mj { dim, pts, .. } => {
+            let n = (pts.len() / (*dim).max(1)).max(1) as f64;
+            let m = pts.iter().fold(0.0f64, |a, &x| a.max(x.abs()));
+            !(4.0 * n * m * m).is_finite()
+        }
+        _ => false,
+    }
+}
+
 /// One run under a `t`-thread pool and the watchdog.
 fn exec(case: &Case, t: usize, ids: Vec<usize>, twice: bool) -> Caught<(Ret, Vec<usize>)> {
     let c = case.clone();
@@ -1598,6 +1611,13 @@ pub fn run_op(ctx: &mut Ctx, op: &str) {
                 let (v2, f2) = verdict(&case, &algo, t, m, ooc, &second);
                 if f2.is_some() {
                     v = format!("{} [{:?}]", v2, reuse);
+                    // a failure of the scaled twin in the regime where the SQUARES of the coordinates can
+                    // overflow f64 (4 n max|c|^2 not finite) carries that regime in its signature
+                    let regime = match (&reuse, &scaled) {
+                        (Reuse::CScale { .. }, Some(c)) if coords_squares_may_overflow(c) => " @coords-squares-overflow",
+                        _ => "",
+                    };
+                    let f2 = f2.map(|(sig, what)| (format!("{}{}", sig, regime), what));
                     f = f2.map(|(sig, what)| (sig, format!("{} [second run {:?} of {}]", what, reuse, op.split(" 1,").next().unwrap_or("").chars().take(40).collect::<String>())));
                 } else if let (Caught::Ok((r1, ids1)), Caught::Ok((r2, ids2))) = (&fresh, &second) {
                     // same input ⇒ same output: compared where the run is deterministic (1-thread
@@ -2391,7 +2411,11 @@ fn scale_stream(ctx: &mut Ctx, ts: &[usize]) {
         }
         for which in [0usize, 1, 2, 3, 4] {
             let specs: &[&str] = if which <= 1 { &C_SCALES_F32 } else { &C_SCALES_F64 };
-            for spec in specs {
+            // HUGE finite coordinates (every algorithm that takes points): beyond the f32 range and up
+            // to where the squares of the coordinates overflow f64 (about 1e153) and beyond. "Finite
+            // coordinates" is all the contract asks for.
+            let huge: &[&str] = &["1e39", "1e150", "1e154", "1e200", "1e300"];
+            for spec in specs.iter().chain(huge.iter()) {
                 let n = gen_n(&mut ctx.rng, 300);
                 let mut case = random_case(ctx, which, n, false);
                 let pm = *ctx.rng.pick(&["uniform", "duplicates", "coincident", "collinear", "lattice"]);
